@@ -1069,7 +1069,7 @@ pub fn ascii_with_double_byte_pairs(rng: &mut Rng) -> Vec<u8> {
 /// very long, with multi-byte characters straddling every small byte offset (27..=41 bytes of ASCII before a run of
 /// 2-, 3- and 4-byte characters), with NUL, quotes, braces and format-string leftovers
 pub fn odd_unknown_labels() -> Vec<String> {
-    let mut v: Vec<String> = vec!["".into(), " ".into(), "\u{0}".into(), "{}".into(), "{0:?}%s%n".into(), "\"quoted\"".into(), "x".repeat(300), "é".repeat(200)];
+    let mut v: Vec<String> = vec!["".into(), " ".into(), "\"".into(), "'".into(), "\"\"".into(), "'utf-8".into(), "\u{0}".into(), "{}".into(), "{0:?}%s%n".into(), "\"quoted\"".into(), "x".repeat(300), "é".repeat(200)];
     for pre in 27..=41usize {
         v.push(format!("{}{}", "x".repeat(pre), "é".repeat(12)));
         if pre % 3 == 0 {
